@@ -359,6 +359,35 @@ def c_into_iter_identity(eng, st, fr, f, args, site):
     return [(st, args[0])]
 
 
+@contract(r"^(std|core)::array::(iter::)?<impl (std|core)::iter::IntoIterator for \[T; N\]>::into_iter$|^<\[T; N\] as (std|core)::iter::IntoIterator>::into_iter$")
+def c_array_into_iter(eng, st, fr, f, args, site):
+    """By-value iteration over a small fixed-size array: the iterator knows its elements and position, so a `for`
+    over it is analysed iteration by iteration (see the "unroll" key items)."""
+    a = force(eng, st, args[0])
+    rt = ret_ty(eng, site)
+    if not isinstance(a, Arr) or len(a.elems) > 8:
+        return None
+    return [(st, Cont("iter:arr", "arrit#%d" % eng._hv(), Lin.const(len(a.elems)), None, (("elems", tuple(a.elems), 0),), rt))]
+
+
+@contract(r"^<(std|core)::array::IntoIter<T, N> as (std|core)::iter::Iterator>::next$|^(std|core)::array::iter::<impl (std|core)::iter::Iterator for (std|core)::array::IntoIter<T, N>>::next$")
+def c_array_iter_next(eng, st, fr, f, args, site):
+    r = args[0]
+    rt = ret_ty(eng, site)
+    if not isinstance(r, Ref) or rt is None:
+        return None
+    it = deref(eng, st, r)
+    if not isinstance(it, Cont) or it.kind != "iter:arr" or not it.segs:
+        return None
+    _, elems, pos = it.segs[0]
+    if pos >= len(elems):
+        return [(st, Enum(rt, ((0, ()),), "next"))]
+    eng.M.write_path(st, r.loc, r.path, Cont(it.kind, it.id, it.len.sub(1), None, (("elems", elems, pos + 1),), it.ty))
+    # iteration number becomes part of the partition: states of different iterations are never joined (unrolling)
+    st.key = tuple(k for k in st.key if not (k[0] == "unroll" and k[1] == it.id)) + (("unroll", it.id, pos),)
+    return [(st, Enum(rt, ((1, (elems[pos],)),), "next"))]
+
+
 @contract(r"^<(std|core)::slice::Iter<'a, T> as (std|core)::iter::Iterator>::next$|^<(std|core)::slice::IterMut<'a, T> as (std|core)::iter::Iterator>::next$|^<(std|alloc)::vec::IntoIter<T, A> as (std|core)::iter::Iterator>::next$")
 def c_iter_next(eng, st, fr, f, args, site):
     r = args[0]
